@@ -70,6 +70,24 @@ Proof.
     rewrite !has_char_app, Hs, IH. reflexivity.
 Qed.
 
+Lemma strip_prefix_GI : forall p s, G.strip_prefix p s = I.strip_prefix p s.
+Proof.
+  induction p as [|a p IH]; intros s; cbn; [reflexivity|].
+  destruct s as [|b s]; [reflexivity|]. destruct (Ascii.eqb a b); [apply IH | reflexivity].
+Qed.
+Lemma word_char_GI : forall c, G.word_char c = I.word_char c.
+Proof. reflexivity. Qed.
+Lemma last_lead_ok_GI : forall p, G.last_lead_ok p = I.last_lead_ok p.
+Proof. induction p as [|c r IH]; [reflexivity|]. cbn. destruct r; [reflexivity | exact IH]. Qed.
+Lemma remove_lead_fuel_GI : forall n ok p s, G.remove_lead_fuel n ok p s = I.remove_lead_fuel n ok p s.
+Proof.
+  induction n as [|k IH]; intros ok p s; cbn [G.remove_lead_fuel I.remove_lead_fuel]; [reflexivity|].
+  destruct s as [|c r]; [reflexivity|]. rewrite strip_prefix_GI, last_lead_ok_GI.
+  destruct ok; [destruct (I.strip_prefix p (String c r))|]; rewrite IH; reflexivity.
+Qed.
+Lemma remove_lead_GI : forall p s, G.remove_lead p s = I.remove_lead p s.
+Proof. intros p s. unfold G.remove_lead, I.remove_lead. destruct p; [reflexivity|]. apply remove_lead_fuel_GI. Qed.
+
 Lemma nb_app : forall a b, nb (a +++ b) = nb a && nb b.
 Proof. intros. unfold nb. rewrite has_char_app. apply negb_orb. Qed.
 
@@ -361,15 +379,23 @@ Proof.
   destruct sp; reflexivity.
 Qed.
 
-Lemma isliteral_tr : forall t, I.isliteral T (tr Nm t) = G.is_literal (wcore t) || ref_literal t.
+Lemma isliteral_tr : forall t, I.isliteral T (tr Nm t) = lit_core t || ref_literal t.
 Proof.
-  intro t. unfold I.isliteral.
+  intro t. unfold I.isliteral, lit_core.
   assert (Hr : match tr Nm t with I.IForwardRef a _ => I.prefixb "Literal" a | _ => false end = ref_literal t).
   { destruct t; try reflexivity. cbn [tr]. destruct g; reflexivity. }
   rewrite Hr. f_equal. pose proof (origin_core t) as H.
-  destruct (wcore t); cbn [origin_spec G.is_literal] in *; try (apply og_plain_special; assumption);
+  destruct (wcore t); cbn [origin_spec] in *; try (apply og_plain_special; assumption);
     rewrite H; try reflexivity.
   destruct sp; reflexivity.
+Qed.
+
+(* on annotations that are not a NewType / alias (every unwrapped annotation) this is Graph.is_literal *)
+Lemma isliteral_plain_tr : forall t, is_wrapper t = false -> I.isliteral T (tr Nm t) = G.is_literal t.
+Proof.
+  intros t Hw. rewrite isliteral_tr. unfold lit_core. rewrite (wcore_plain t Hw).
+  destruct t; try reflexivity; try discriminate Hw.
+  cbn [ref_literal G.is_literal orb]. rewrite <- (prefix_GI "Literal" arg). reflexivity.
 Qed.
 
 Lemma dunder_args_tr : forall t,
@@ -412,7 +438,7 @@ Qed.
 
 (* ---- should_unwrap, unwrap *)
 Lemma is_literal_tr : forall t,
-  match tr Nm t with I.ILiteral _ => true | _ => false end = G.is_literal t.
+  match tr Nm t with I.ILiteral _ => true | _ => false end = match t with G.GLit _ => true | _ => false end.
 Proof. destruct t; try reflexivity. cbn [tr]. destruct g; reflexivity. Qed.
 
 Lemma should_unwrap_tr : forall t, I.should_unwrap T (tr Nm t) = is_final (wcore t).
@@ -420,6 +446,11 @@ Proof.
   intro t. unfold I.should_unwrap. rewrite is_literal_tr, isclassvartype_tr, isfinal_tr. cbn [orb].
   destruct t; try reflexivity.
 Qed.
+
+Lemma should_unwrap_wcore : forall t, G.should_unwrap t = is_final (wcore t).
+Proof. induction t using gty_ind'; cbn [G.should_unwrap wcore is_final]; auto. Qed.
+Lemma should_unwrap_G : forall t, I.should_unwrap T (tr Nm t) = G.should_unwrap t.
+Proof. intro t. rewrite should_unwrap_tr, should_unwrap_wcore. reflexivity. Qed.
 
 Lemma unwrap_wcore : forall t, G.unwrap t = G.unwrap (wcore t).
 Proof. induction t using gty_ind'; cbn [wcore G.unwrap]; auto. Qed.
@@ -431,7 +462,7 @@ Proof. induction t using gty_ind'; cbn [wcore wend]; auto. Qed.
 Lemma unwrap_fuel_S : forall k x, I.unwrap_fuel T (S k) x =
   let step := match x with
               | I.IAlias _ v => I.unwrap_fuel T k v
-              | I.IAliasStr _ s => I.Ok (I.IForwardRef s (Some I.user_module))
+              | I.IAliasStr _ s => I.Ok (I.IForwardRef (I.fref_name I.user_module s) (Some I.user_module))
               | I.INewType _ s => I.unwrap_fuel T k s
               | _ => I.Ok x
               end in
@@ -487,8 +518,7 @@ Proof.
       * exfalso. destruct (wcore x); try discriminate Hf. discriminate Hd.
     + cbn [tr G.unwrap]. apply IH; [lia | exact Hgx].
   - (* string alias *) cbn [tr G.unwrap]. unfold unwrap_guard in Hg. cbn [wend] in Hg.
-    apply andb_prop in Hg. destruct Hg as [Hm Hb]. apply String.eqb_eq in Hm. apply String.eqb_eq in Hb.
-    change (G.sapp m ".") with (m +++ "."). rewrite Hb, Hm. reflexivity.
+    apply String.eqb_eq in Hg. subst m. unfold I.fref_name. rewrite <- remove_lead_GI. reflexivity.
   - (* Final *) cbn [rw_image tr I.dunder_args G.unwrap]. cbn [wsize] in Hsz. apply IH; [lia | exact Hg].
 Qed.
 
@@ -595,7 +625,7 @@ Qed.
 Lemma base_union_tuple : I.subclass T I.c_UnionType I.c_tuple = false.
 Proof. pose proof Hbase as H. split_base H. apply negb_true_iff. assumption. Qed.
 
-Lemma isfixedtupletype_tr : forall t, I.isfixedtupletype T (tr Nm t) = G.is_fixed_tuple t || empty_tuple t.
+Lemma isfixedtupletype_tr : forall t, I.isfixedtupletype T (tr Nm t) = G.is_fixed_tuple t.
 Proof.
   intro t. unfold I.isfixedtupletype. cbv zeta. rewrite args_tr_all, dunder_args_tr.
   destruct t as [s| | | |n|g a|sp ms|c|m n x|m n x|m n bd|x|a mo]; try reflexivity.
@@ -608,7 +638,7 @@ Proof.
     destruct a as [|x r].
     + cbn. destruct g; reflexivity.
     + cbn [map negb andb orb]. destruct (G.last_is_ellipsis (x :: r)); destruct g; reflexivity.
-  - (* union *) cbn [G.args_of G.is_fixed_tuple empty_tuple orb].
+  - (* union *) cbn [G.args_of G.is_fixed_tuple].
     match goal with |- (if ?c then _ else _) = _ => destruct c end; [reflexivity|].
     destruct sp; cbn [tr tr_sp I.get_origin]; try reflexivity.
     unfold I.safe_issubclass. cbn [I.issubclass_raw I.subclass_any existsb].
@@ -693,7 +723,7 @@ Proof.
     repeat match goal with X : I.isstdlibsubtype T _ = true |- _ => rewrite X end.
     assert (Hn : I.isnamedtuple T (tr_gen Nm g (map (tr Nm) a)) = false) by (destruct g; reflexivity).
     assert (Hd : I.istypeddict T (tr_gen Nm g (map (tr Nm) a)) = false) by (destruct g; reflexivity).
-    rewrite Hn, Hd. cbn [structured_g wcore G.is_union G.is_literal ref_literal negb andb orb].
+    rewrite Hn, Hd. unfold lit_core. cbn [structured_g wcore G.is_union ref_literal negb andb orb].
     rewrite !orb_false_r. reflexivity.
   - (* union *) unfold I.isstructuredtype.
     rewrite (isfixedtupletype_tr (G.GUnion sp ms)), (isuniontype_tr (G.GUnion sp ms)).
@@ -971,14 +1001,12 @@ Qed.
 Lemma unwrap_not_wrapper : forall c, is_wrapper (G.unwrap c) = false.
 Proof. induction c using gty_ind'; cbn [G.unwrap is_wrapper]; auto. Qed.
 
-Lemma defer_decision_tr : forall c, nobr E (G.unwrap c) = true -> su_guard c = true ->
+Lemma defer_decision_tr : forall c, nobr E (G.unwrap c) = true ->
   (I.issubscriptedgeneric T (tr Nm (G.unwrap c)) || I.isuniontype T (tr Nm (G.unwrap c)))
   || I.should_unwrap T (tr Nm c) || I.isforwardref (tr Nm c)
   = G.is_generic E (G.unwrap c) || G.should_unwrap c || G.is_ref c.
 Proof.
-  intros c Hn Hs. rewrite (is_generic_tr _ Hn (unwrap_not_wrapper c)), should_unwrap_tr, isforwardref_tr.
-  f_equal. f_equal. unfold su_guard in Hs. apply negb_true_iff in Hs.
-  destruct c; try reflexivity; cbn [is_wrapper andb wcore] in Hs; cbn [wcore G.should_unwrap]; exact Hs.
+  intros c Hn. rewrite (is_generic_tr _ Hn (unwrap_not_wrapper c)), should_unwrap_G, isforwardref_tr. reflexivity.
 Qed.
 
 (* ---- qualname (the reference branch of get_type_graph) *)
